@@ -346,6 +346,38 @@ func (x *Exec) external(fn *ssa.Function, args []Val) (Val, bool) {
 		}
 		return nil, false
 	}
+	if strings.HasPrefix(name, "sync/atomic.") {
+		// atomic operations are synchronised: plain load/store, never a frame write
+		op := strings.TrimPrefix(name, "sync/atomic.")
+		p, okp := args[0].(Ptr)
+		if okp && p.Base != nil {
+			switch {
+			case strings.HasPrefix(op, "Load"):
+				return x.loadPath(p.Base.V, p.Path), true
+			case strings.HasPrefix(op, "Store"):
+				p.Base.V = x.storePath(p.Base.V, p.Path, args[1])
+				return nil, true
+			case strings.HasPrefix(op, "Add"):
+				cur := x.loadPath(p.Base.V, p.Path).(Int)
+				nv := x.binInt(token.ADD, cur, args[1].(Int))
+				p.Base.V = x.storePath(p.Base.V, p.Path, nv)
+				return nv, true
+			case strings.HasPrefix(op, "Swap"):
+				cur := x.loadPath(p.Base.V, p.Path)
+				p.Base.V = x.storePath(p.Base.V, p.Path, args[1])
+				return cur, true
+			case strings.HasPrefix(op, "CompareAndSwap"):
+				cur := x.loadPath(p.Base.V, p.Path)
+				eq := x.binop(token.EQL, cur, args[1]).(Bool)
+				if x.truth(eq) {
+					p.Base.V = x.storePath(p.Base.V, p.Path, args[2])
+					return Bool{C: true}, true
+				}
+				return Bool{C: false}, true
+			}
+		}
+		panic(unsupported{name})
+	}
 	if strings.HasPrefix(name, "(*sync.") {
 		if v, ok := x.syncModel(name, args); ok {
 			return v, true
@@ -1295,7 +1327,13 @@ func (x *Exec) syncModel(name string, args []Val) (Val, bool) {
 		return k
 	}
 	switch name {
-	case "(*sync.Mutex).Lock", "(*sync.Mutex).Unlock", "(*sync.RWMutex).Lock", "(*sync.RWMutex).Unlock", "(*sync.RWMutex).RLock", "(*sync.RWMutex).RUnlock":
+	case "(*sync.Mutex).Lock", "(*sync.RWMutex).Lock", "(*sync.RWMutex).RLock":
+		x.lockDepth++
+		return nil, true
+	case "(*sync.Mutex).Unlock", "(*sync.RWMutex).Unlock", "(*sync.RWMutex).RUnlock":
+		if x.lockDepth > 0 {
+			x.lockDepth--
+		}
 		return nil, true
 	case "(*sync.Once).Do":
 		k := key()
